@@ -118,6 +118,20 @@ func aliasMap(p *Prog, fi *FuncInfo) map[types.Object]*Term {
 			if t.Op == "fld" && len(p.Assignments(fi, v)) == 1 {
 				m[v] = t
 			}
+			// a local that names a pure expression over an accessor of a packet (payload := pkt.data(); pos := pkt.seqid() % n)
+			if len(p.Assignments(fi, v)) == 1 && p.pureTerm(t) && (t.Op == "call" || t.Op == "%") {
+				isAcc := false
+				t.Walk(func(x *Term) {
+					if x.Op == "call" {
+						if f, ok := x.Obj.(*types.Func); ok && recvTypeName(f) == "fecPacket" {
+							isAcc = true
+						}
+					}
+				})
+				if isAcc {
+					m[v] = t
+				}
+			}
 		}
 		return true
 	})
@@ -344,7 +358,7 @@ func checkFECDecode(p *Prog, r *Report, fi *FuncInfo) {
 				// index = pkt.seqid() % shardSize, pkt the receiver of data()
 				fs := fa.AtNode(data.Node)
 				ix := fs.Resolve(p.Term(ast.Unparen(data.Node.Lhs[0]).(*ast.IndexExpr).Index))
-				pk := p.Term(data.Rhs).Args[0]
+				pk := p.Term(data.Rhs).Subst(al).Args[0] // (payload := pkt.data(); shards[pos] = payload)
 				want := p.ExpandHelpers(mk("%", tCall(p.Method("fecPacket", "seqid"), pk), shardSize))
 				okIx := stripConvs(p.ExpandHelpers(ix.Subst(al))).Key() == stripConvs(want).Key()
 				// the packet comes from shard.Pop()
@@ -504,11 +518,20 @@ func checkFECDecode(p *Prog, r *Report, fi *FuncInfo) {
 				if x, okM := p.runningMax(fi, a.Node, tVar(maxlen), a.Rhs); okM && rt.Op == "max" {
 					okC, rt, isMaxForm = true, x, true
 				}
+				rt = normTerm(rt.Subst(al)) // payload := pkt.data()
 				// rt = len(pkt.data()) where shards[..] = pkt.data() for the same pkt in the same loop
 				okSrc := rt.Op == "len" && rt.Args[0].Op == "call" && rt.Args[0].Obj == p.Method("fecPacket", "data")
+				if !okSrc && rt.Op == "len" {
+					// the accessor already expanded (data() is bts[6:]): compared in expanded form below
+					for _, fsx := range fillStores {
+						if fsx.Base.Key() == cache.Key() && p.ExpandHelpers(p.Term(fsx.Rhs).Subst(al)).Key() == rt.Args[0].Key() {
+							okSrc = true
+						}
+					}
+				}
 				sameLoop := false
 				for _, fsx := range fillStores {
-					if fsx.Base.Key() == cache.Key() && enclosingLoop(p, fsx.Node) == enclosingLoop(p, a.Node) && enclosingLoop(p, a.Node) != nil && okSrc && p.Term(fsx.Rhs).Key() == rt.Args[0].Key() {
+					if fsx.Base.Key() == cache.Key() && enclosingLoop(p, fsx.Node) == enclosingLoop(p, a.Node) && enclosingLoop(p, a.Node) != nil && okSrc && (p.Term(fsx.Rhs).Subst(al).Key() == rt.Args[0].Key() || p.ExpandHelpers(p.Term(fsx.Rhs).Subst(al)).Key() == rt.Args[0].Key()) {
 						sameLoop = true
 						// for every packet stored: no further condition on the update than the comparison itself
 						fpt, _ := c.PointOf(fsx.Node)
